@@ -262,7 +262,7 @@ func hugeCuts(n int, ends []int) []int {
 
 func TestC09(t *testing.T) {
 	R := ev.New("C09")
-	R.Rule = "cases = (codec, stream, cut offset[, read granularity]); gob and JSON: every byte offset 0..len of every stream, CSV: every record boundary; plus (codec, sequence of length 1..3 over the pool, Encode call / Write call) for the nothing-is-held-back check. A case is distinct+non-trivial when its (codec, stream, offset) is new and the cut falls strictly inside a record (a torn record follows the clean prefix), or - for the write-log part - when bytes of at least two Encode calls precede the inspection point"
+	R.Rule = "cases = (codec, stream, cut offset[, read granularity]); gob and JSON: every byte offset 0..len of every stream, CSV: every record boundary; plus (codec, sequence of length 1..3 over the pool, Encode call / Write call) for the nothing-is-held-back check; plus every sequence of length 1..4 (6) over {2 ordinary records, a record the codec rejects} containing a rejected one, gob and JSON, inspected after every call (what reached the writer decodes to exactly the acknowledged records). A case is distinct+non-trivial when its (codec, stream, offset) is new and the cut falls strictly inside a record (a torn record follows the clean prefix), or - for the write-log part - when bytes of at least two Encode calls precede the inspection point"
 	R.Assume("a stream is what one encoder writes through successive Encode calls; ends[i] is the number of bytes handed to the writer when Encode(i) returned (validated: the cut at ends[i] must decode to exactly i+1 records)")
 	R.Assume("text containing CR LF is excluded (C07 known finding csv:text-field:CRLF->LF)")
 	R.Assume("CSV cut inside a record is outside the property as stated and is not asserted")
@@ -532,7 +532,95 @@ func TestC09(t *testing.T) {
 			}
 		}
 	}
+	rejectedRecords(R, p)
 	R.Set("max_write_calls_per_encode_call", maxWrites)
 	R.Sample("write-log: " + strings.TrimSpace(fmt.Sprint("sequence ", seqs[len(seqs)/2], " inspected after each Encode call for gob, json, csv")))
 	R.Finish(t)
+}
+
+// rejectedRecords: histories in which some Encode calls fail because the
+// record cannot be represented (JSON: a year beyond 9999; gob: a zone offset
+// of minus one minute). A failed call must leave the stream at a record
+// boundary: after every call - failed or not - what reached the writer decodes
+// to exactly the records whose Encode call returned nil, in order.
+func rejectedRecords(R *ev.Run, p []vegeta.Result) {
+	type viol struct {
+		key    string
+		detail any
+	}
+	bad := map[string]vegeta.Result{
+		"json": {Attack: "bad", Seq: 77, Code: 200, Timestamp: time.Date(10000, 1, 1, 0, 0, 0, 0, time.UTC), Method: "GET", URL: "http://bad/"},
+		"gob":  {Attack: "bad", Seq: 77, Code: 200, Timestamp: time.Date(2020, 1, 1, 0, 0, 0, 0, time.FixedZone("", -60)), Method: "GET", URL: "http://bad/"},
+	}
+	alpha := []vegeta.Result{p[1], p[4]} // index 2 = the rejected record
+	var seqs [][]int
+	ev.Seqs(3, 1, ev.Pick(4, 6), func(s []int) {
+		for _, x := range s {
+			if x == 2 {
+				seqs = append(seqs, append([]int(nil), s...))
+				return
+			}
+		}
+	})
+	out := make([][]viol, len(seqs))
+	ev.Parallel(len(seqs), 16, func(qi int) {
+		s := seqs[qi]
+		for _, c := range codecs[:2] {
+			w := &logWriter{}
+			enc := c.enc(w)
+			var acked []vegeta.Result
+			rejected := 0
+			R.State(1)
+			for i, x := range s {
+				var r vegeta.Result
+				if x == 2 {
+					r = bad[c.name]
+				} else {
+					r = alpha[x]
+				}
+				R.Trans(1)
+				err := enc.Encode(&r)
+				if err == nil {
+					acked = append(acked, r)
+				}
+				if x == 2 {
+					if err == nil { // the harness's premise: this record is not representable
+						out[qi] = append(out[qi], viol{c.name + ":rejected-records:premise", "the unrepresentable record was accepted"})
+						break
+					}
+					rejected++
+				}
+				R.Eval(1)
+				R.Part("rejected_records", c.name+"_after_encode_call", 1)
+				R.Distinct(fmt.Sprint("rj", c.name, s[:i+1]))
+				got, ferr, late := decodePrefix(R, c, bytes.NewReader(w.buf), len(acked), 2)
+				what := ""
+				switch {
+				case len(got) < len(acked):
+					what = "acknowledged-record-not-returned"
+				case len(got) > len(acked):
+					what = "record-returned-that-no-call-acknowledged"
+				case ferr == nil || late:
+					what = "no-end-of-stream-after-the-acknowledged-records"
+				default:
+					for k := range got {
+						if !same(acked[k], got[k]) {
+							what = "record-altered"
+						}
+					}
+				}
+				if what != "" {
+					out[qi] = append(out[qi], viol{c.name + ":rejected-records:" + what, map[string]any{"sequence (2 = rejected record)": s, "after_encode_call": i,
+						"acknowledged": len(acked), "decoded": len(got), "decode_error": fmt.Sprint(ferr), "bytes_at_writer": len(w.buf)}})
+					break
+				}
+			}
+		}
+	})
+	R.Set("rejected_record_sequences", len(seqs))
+	for qi := range out {
+		for _, v := range out[qi] {
+			R.Violation(v.key, v.detail)
+		}
+	}
 }
